@@ -42,6 +42,9 @@ pub struct Cfg {
     /// what they are without it
     #[serde(default)]
     pub throttled: bool,
+    /// the inner service answers Pending to the first poll_ready of every readiness cycle
+    #[serde(default)]
+    pub slow_inner: bool,
 }
 #[derive(Serialize, Deserialize, Clone, Copy, Debug, PartialEq, Default)]
 pub enum Via {
@@ -62,15 +65,22 @@ pub struct Inner {
     pub called_ids: Arc<std::sync::Mutex<Vec<u32>>>,
     pub breaches: Arc<AtomicUsize>,
     ready: bool,
+    /// a service with back-pressure: after every call (and at first) poll_ready answers Pending
+    /// once before it answers Ready
+    slow: bool,
+    polled_once: bool,
 }
 impl Inner {
     pub fn new(calls: Arc<AtomicUsize>) -> Self {
-        Inner { calls, called_ids: Arc::new(std::sync::Mutex::new(vec![])), breaches: Arc::new(AtomicUsize::new(0)), ready: false }
+        Inner { calls, called_ids: Arc::new(std::sync::Mutex::new(vec![])), breaches: Arc::new(AtomicUsize::new(0)), ready: false, slow: false, polled_once: false }
+    }
+    pub fn new_slow(calls: Arc<AtomicUsize>) -> Self {
+        Inner { slow: true, ..Inner::new(calls) }
     }
 }
 impl Clone for Inner {
     fn clone(&self) -> Self {
-        Inner { calls: self.calls.clone(), called_ids: self.called_ids.clone(), breaches: self.breaches.clone(), ready: false }
+        Inner { calls: self.calls.clone(), called_ids: self.called_ids.clone(), breaches: self.breaches.clone(), ready: false, slow: self.slow, polled_once: false }
     }
 }
 struct Mock {
@@ -97,6 +107,10 @@ impl Service<Req> for Inner {
     type Error = String;
     type Future = Pin<Box<dyn Future<Output = Result<u32, String>> + Send>>;
     fn poll_ready(&mut self, _: &mut Context<'_>) -> Poll<Result<(), String>> {
+        if self.slow && !self.polled_once {
+            self.polled_once = true;
+            return Poll::Pending;
+        }
         self.ready = true;
         Poll::Ready(Ok(()))
     }
@@ -105,6 +119,7 @@ impl Service<Req> for Inner {
             self.breaches.fetch_add(1, Ordering::SeqCst);
         }
         self.ready = false;
+        self.polled_once = false;
         self.called_ids.lock().unwrap_or_else(|e| e.into_inner()).push(r.0);
         self.calls.fetch_add(1, Ordering::SeqCst);
         Box::pin(Mock { id: r.0, o: r.1, polled: false })
@@ -192,7 +207,7 @@ impl Subject for C20 {
         }
         self.calls = Arc::new(AtomicUsize::new(0));
         let role = if self.cfg.server { ServiceRole::Server } else { ServiceRole::Client };
-        let inner = Inner::new(self.calls.clone());
+        let inner = if self.cfg.slow_inner { Inner::new_slow(self.calls.clone()) } else { Inner::new(self.calls.clone()) };
         self.called_ids = inner.called_ids.clone();
         self.breaches = inner.breaches.clone();
         let s = match self.cfg.via {
@@ -258,9 +273,14 @@ impl Subject for C20 {
                 {
                     let waker = Waker::noop();
                     let mut cx = Context::from_waker(waker);
-                    match self.svc.as_mut().unwrap().poll_ready(&mut cx) {
-                        Poll::Ready(Ok(())) => {}
-                        other => return Err(format!("not-ready: poll_ready of the middleware answered {:?} over an inner service that is always ready", other.map(|r| r.map_err(|e| e.to_string())))),
+                    let mut polls = 0;
+                    loop {
+                        polls += 1;
+                        match self.svc.as_mut().unwrap().poll_ready(&mut cx) {
+                            Poll::Ready(Ok(())) => break,
+                            Poll::Pending if self.cfg.slow_inner && polls < 3 => continue,
+                            other => return Err(format!("not-ready: poll_ready #{} of the middleware answered {:?} over an inner service that is {}", polls, other.map(|r| r.map_err(|e| e.to_string())), if self.cfg.slow_inner { "ready from its second poll on" } else { "always ready" })),
+                        }
                     }
                 }
                 let fut = self.svc.as_mut().unwrap().call((id, *o));
@@ -387,14 +407,15 @@ pub fn run(o: &Opts, stats: &mut Stats) -> Option<usize> {
         for fallback in [Fallback::None, Fallback::OkResponse, Fallback::Err] {
             for server in [true, false] {
                 for via in [Via::Direct, Via::Layer, Via::ClonedLayer] {
-                    cfgs.push(Cfg { threshold, fallback, server, via, throttled: false });
+                    cfgs.push(Cfg { threshold, fallback, server, via, throttled: false, slow_inner: false });
                 }
             }
         }
     }
     for threshold in [1u32, 2] {
         for server in [true, false] {
-            cfgs.push(Cfg { threshold, fallback: Fallback::OkResponse, server, via: Via::Direct, throttled: true });
+            cfgs.push(Cfg { threshold, fallback: Fallback::OkResponse, server, via: Via::Direct, throttled: true, slow_inner: false });
+            cfgs.push(Cfg { threshold, fallback: Fallback::None, server, via: if server { Via::Direct } else { Via::ClonedLayer }, throttled: false, slow_inner: true });
         }
     }
     let thorough = o.thorough;
